@@ -50,19 +50,21 @@ class SymCtx(_Base):
   def int(self, name, lo=None, hi=None):
     t = z3.Int(self.ex.fresh_name(name))
     self.ex.inputs.append((name, 'int', t))
-    if lo is not None:
-      self.ex.assume(t >= lo)
-    if hi is not None:
-      self.ex.assume(t <= hi)
+    if not self.ex.retained():
+      if lo is not None:
+        self.ex.assume(t >= lo)
+      if hi is not None:
+        self.ex.assume(t <= hi)
     return symex.SymInt(t)
 
   def real(self, name, lo=None, hi=None):
     t = z3.Real(self.ex.fresh_name(name))
     self.ex.inputs.append((name, 'real', t))
-    if lo is not None:
-      self.ex.assume(t >= symex.real_term(lo))
-    if hi is not None:
-      self.ex.assume(t <= symex.real_term(hi))
+    if not self.ex.retained():
+      if lo is not None:
+        self.ex.assume(t >= symex.real_term(lo))
+      if hi is not None:
+        self.ex.assume(t <= symex.real_term(hi))
     return symex.SymReal(t)
 
   def bool(self, name):
